@@ -36,11 +36,15 @@ ID = 'C13'
 LEVEL = 'exploration'
 RULE = (
     'same files as C12 (all 326 builder programs, pixel-count x chunk-size grid, 1..20 runs in '
-    'direct / indirect / mixed mode, string sweep, BytesIO and real files); supplied values: '
-    'float64 rows over 1e-30..1e29 of either sign with forced {0, -0.0, float64 / float32 '
-    'denormals, float32-exact, float32 halfway}, float32 rows in the row unit, int32/int64 index '
-    'rows, input units 1/angstrom|1/nm, meV|ueV|eV, counts; angles in deg or rad; lattice in '
-    'angstrom or nm. distinct = C12 signature x value class'
+    'direct / indirect / mixed mode, string sweep, row-selection x dtype-plan grid over the public '
+    'keywords rows/row_units/n_dims/title/byteorder, metadata unit/dtype classes, array-size ladder, '
+    'BytesIO and real files); supplied values: float64 rows over 1e-30..1e29 of either sign with '
+    'forced {0, -0.0, float64 / float32 denormals, float32-exact, float32 halfway} in any convertible '
+    'input unit, float32 / int32 / int64 rows in the declared unit of the row, every row of one dtype, '
+    'extra per-pixel coordinates; energies / angles / axis quantities as float64, float32 or integers '
+    'in meV|ueV|eV, deg|rad, 1/angstrom|1/nm, or already in the written unit and dtype (then the same '
+    'objects are used for a second build to the other kind of target); lattice in angstrom or nm. '
+    'distinct = C12 signature x value class'
 )
 ASSUMPTIONS = [
     'field names and layout of the serialised models are those of the Horace classes the '
@@ -48,6 +52,9 @@ ASSUMPTIONS = [
     'IX_experiment, IX_null_inst/IX_source, IX_sample, unique_*_container)',
     'written units per field: alatt angstrom, angdeg deg, u/v/w and q-axes 1/angstrom, energies meV, '
     'goniometer angles rad with angular_is_degree=false, source frequency as supplied (Hz)',
+    'the rows of the pixel block are the rows the rows keyword selects, in that order, converted to the '
+    'units of row_units; data_range has one (min, max) pair per selected row; a second build from the '
+    'same model objects must store the same supplied values',
     '"rounded once to float32": the stored value is at least as close to the exactly converted '
     'value as the correctly rounded float32, up to 2^-50 relative for the float64 conversion step',
 ]
@@ -472,10 +479,12 @@ def _labels(j, blk, st, want):
 
 
 def expected_rows(spec):
-    """(exactly converted long-double rows, raw rows) of the nine pixel rows."""
+    """(exactly converted long-double rows, raw rows) of the selected pixel rows, in the
+    declared order and declared units (keywords rows / row_units, default: the nine rows)."""
     out, raw = [], []
-    for name, unit in zip(W.ROWS, W.ROW_UNITS, strict=True):
-        r = spec['pix']['rows'][name]
+    px = spec['pix']
+    for name, unit in zip(px['row_names'], px['row_units'], strict=True):
+        r = px['rows'][name]
         raw.append(np.asarray(r['values']))
         out.append(conv_exact(r['values'], r['unit'], unit))
     return out, raw
@@ -484,8 +493,11 @@ def expected_rows(spec):
 def judge_pixels(j, f, case, spec, buf, trace, full_filename):
     ctx = j.ctx
     n = spec['pix']['n']
+    names, units = spec['pix']['row_names'], spec['pix']['row_units']
+    nr = len(names)
     d = next((x for x in f.descriptors if x.name == ('pix', 'data_wrap')), None)
     rows_exact, rows_raw = expected_rows(spec)
+    row_keys = {'rows': 'nine' if nr == 9 else 'other'}
     # ---- pixel metadata
     b = f.blocks.get(('pix', 'metadata'))
     if b is not None and b.ok:
@@ -504,18 +516,25 @@ def judge_pixels(j, f, case, spec, buf, trace, full_filename):
                     except D.DecodeError:
                         got = None
                     ctx.event('content:data_range')
-                    if got is None or got.shape != (9, 2):
+                    if got is None or got.shape != (nr, 2):
                         j.bad('content_shape', blk, 'data_range',
-                              f'stored shape {node.shape}, expected (2, 9) column-major', mechanism='shape')
+                              f'stored shape {node.shape}, expected (2, {nr}) column-major', mechanism='shape',
+                              **row_keys)
                     else:
                         err = np.abs(got.astype(LD) - want)
                         bound = LD(1.2e-7) * np.abs(want) + LD(1.5e-45)
                         if np.any(~(err <= bound)):
                             i = int(np.argmax(~(err <= bound).all(axis=1)))
+                            mech = 'data_range'
+                            dts = sorted({spec['pix']['rows'][k]['dtype'] for k in names})
+                            # the stored 8-byte items are the bit patterns of the integer (min, max)
+                            if node.tag == 'f64' and np.array_equal(
+                                    np.asarray(got, dtype=np.float64).view(np.int64).astype(LD), want):
+                                mech = 'f64_tag_integer_items'
                             j.bad('pix_metadata', blk, 'data_range',
-                                  f'row {W.ROWS[i]}: stored [{got[i, 0]!r}, {got[i, 1]!r}], converted rows span '
-                                  f'[{float(want[i, 0])!r}, {float(want[i, 1])!r}]',
-                                  mechanism='data_range')
+                                  f'row {names[i]}: stored [{got[i, 0]!r}, {got[i, 1]!r}], converted rows span '
+                                  f'[{float(want[i, 0])!r}, {float(want[i, 1])!r}] (row dtypes {dts})',
+                                  mechanism=mech, **row_keys)
             else:
                 ctx.count('undecided:data_range_of_zero_pixels')
     # ---- pixel block, leniently (whatever part of it is in the file)
@@ -528,22 +547,22 @@ def judge_pixels(j, f, case, spec, buf, trace, full_filename):
         nrows, npix = cur.u32(), cur.u64()
     except D.DecodeError as e:
         j.bad('pixels_missing', 'pix/data_wrap', 'head', f'pixel block head not in the file: {e}',
-              mechanism=W.pix_mechanism(trace))
+              mechanism=W.pix_mechanism(trace, d.size))
         return
     ctx.event('content:pixel_blocks')
-    if nrows != 9 or npix != n:
-        j.bad('content_value', 'pix/data_wrap', 'head', f'block says {nrows} rows x {npix} pixels, supplied 9 x {n}',
-              mechanism='pix_head')
-        if nrows != 9:
+    if nrows != nr or npix != n:
+        j.bad('content_value', 'pix/data_wrap', 'head',
+              f'block says {nrows} rows x {npix} pixels, supplied {nr} x {n}', mechanism='pix_head', **row_keys)
+        if nrows != nr:
             return
-    avail = min(npix, n, (end - cur.pos) // 36)
-    data = cur.array('f4', avail * 9).reshape(avail, 9)
+    avail = min(npix, n, (end - cur.pos) // (4 * nr))
+    data = cur.array('f4', avail * nr).reshape(avail, nr)
     if avail < n:
         j.bad('pixels_missing', 'pix/data_wrap', 'pixels',
-              f'{n - avail} of {n} pixels are not in the file (chunk_size={case["chunk"] or 8192})',
-              mechanism=W.pix_mechanism(trace))
-    ctx.event('content:pixels', int(avail) * 9)
-    for i, name in enumerate(W.ROWS):
+              f'{n - avail} of {n} pixels are not in the file (chunk_size={case["chunk"] or 8192}, {nr} rows)',
+              mechanism=W.pix_mechanism(trace, d.size))
+    ctx.event('content:pixels', int(avail) * nr)
+    for i, name in enumerate(names):
         exact = rows_exact[i][:avail]
         got = data[:, i]
         want32 = exact.astype(np.float32)
@@ -559,14 +578,15 @@ def judge_pixels(j, f, case, spec, buf, trace, full_filename):
             raw32 = rows_raw[i][:avail].astype(np.float32)
             unit_in = spec['pix']['rows'][name]['unit']
             mech = 'pixel_value'
-            if unit_in != W.ROW_UNITS[i] and np.array_equal(got, raw32):
+            if unit_in != units[i] and np.array_equal(got, raw32):
                 mech = 'row_written_in_input_unit'
             elif np.array_equal(got.view(np.uint32).byteswap(), want32.view(np.uint32)):
                 mech = 'pixel_byteorder'
-            j.bad('pixel_value', 'pix/data_wrap', name,
-                  f'pixel {k}: stored {got[k]!r}, supplied {rows_raw[i][k]!r} {unit_in} = '
-                  f'{float(exact[k])!r} {W.ROW_UNITS[i]} -> float32 {want32[k]!r}',
-                  mechanism=mech, converted=bool(unit_in != W.ROW_UNITS[i]))
+            rname = name if name in W.ROWS else 'extra'
+            j.bad('pixel_value', 'pix/data_wrap', rname,
+                  f'pixel {k} of row {name}: stored {got[k]!r}, supplied {rows_raw[i][k]!r} {unit_in} = '
+                  f'{float(exact[k])!r} {units[i]} -> float32 {want32[k]!r}',
+                  mechanism=mech, converted=bool(unit_in != units[i]))
 
 
 def judge_content(ctx, case, spec, target, buf, trace):
@@ -583,11 +603,17 @@ def judge_content(ctx, case, spec, target, buf, trace):
         if b.ok or d.block_type == 'pix_data_block':
             continue
         keys = {'mechanism': 'undecodable'}
+        diag = ''
         if d.block_type == 'data_block':
             sm = W.string_mechanism(buf, d, bo)
+            im = None if sm else W.itemsize_mechanism(buf, d, bo)
             if sm:
                 keys = {k: sm[k] for k in ('mechanism', 'site')}
-        j.bad('block_undecodable', '/'.join(d.name), '', f'content cannot be decoded: {b.error}', **keys)
+            elif im:
+                keys = {'mechanism': im['mechanism'], 'array': im['field']}
+                diag = (f"; decodes completely if the f64-tagged array {im['path']} of shape {im['shape']} "
+                        f"holds 4-byte elements")
+        j.bad('block_undecodable', '/'.join(d.name), '', f'content cannot be decoded: {b.error}{diag}', **keys)
     want = W.expected_names(case['program'])
     for name in sorted(want - set(f.blocks)):
         j.bad('content_missing_block', '/'.join(name), '', 'block not in the file', mechanism='missing_block')
@@ -725,8 +751,11 @@ def read_back(ctx, S, sc, case, spec, target, f, buf, trace=None):
                     if not b.ok:
                         # the bytes are not what the table declares: writer-side cause
                         sm = W.string_mechanism(buf, d, bo) if d.block_type == 'data_block' else None
+                        im = W.itemsize_mechanism(buf, d, bo) if d.block_type == 'data_block' and not sm else None
                         if d.block_type == 'pix_data_block':
-                            keys['mechanism'] = W.pix_mechanism(trace)
+                            keys['mechanism'] = W.pix_mechanism(trace, d.size)
+                        elif im:
+                            keys['mechanism'], keys['array'] = im['mechanism'], im['field']
                         else:
                             keys['mechanism'] = sm['mechanism'] if sm else 'stored_block_broken'
                         keys['stored_block_decodes'] = False
@@ -891,19 +920,22 @@ def requirements(tier):
                    'content:data_range': 100, 'content:histogram': 200, 'reader:blocks': 2000,
                    'reader:variable': 2000, 'reader:unit_dimension': 2000, 'reader:plain': 2000},
         'forced': W.FORCED + ['value:forced', 'value:wide', 'row_unit_converted', 'row_float32',
-                              'angle_deg', 'angle_rad', 'lattice_nm'],
+                              'row_int_in_float_row', 'angle_deg', 'angle_rad', 'lattice_nm'],
     }
 
 
 def hit_values(ctx, case, spec):
     if 'pix' in case['program']:
         ctx.hit('value:' + case['values'])
-        rows = spec['pix']['rows']
-        if any(rows[n]['unit'] != u for n, u in zip(W.ROWS, W.ROW_UNITS, strict=True) if n in rows
-               and rows[n]['unit'] not in (None, 'count', 'count**2')):
+        px = spec['pix']
+        rows = px['rows']
+        sel = list(zip(px['row_names'], px['row_units'], strict=True))
+        if any(rows[n]['unit'] != u for n, u in sel):
             ctx.hit('row_unit_converted')
-        if any(r['dtype'] == 'float32' for r in rows.values()):
+        if any(rows[n]['dtype'] == 'float32' for n, _ in sel):
             ctx.hit('row_float32')
+        if any(rows[n]['dtype'] in ('int64', 'int32') and W.ROW_KIND[n] == 'float' for n, _ in sel):
+            ctx.hit('row_int_in_float_row')
         for e in spec['experiments']:
             ctx.hit('angle_' + e['psi']['unit'])
     if 'samp' in case['program'] and spec['sample']['alatt']['unit'] == 'nm':
@@ -947,37 +979,46 @@ def run(shard, ctx):
     try:
         with tr:
             for it in items:
-                for case in it['cases']:
-                    rng = np.random.Generator(np.random.PCG64(case['vseed']))
-                    spec = W.gen_spec(rng, case)
-                    models = W.build_models(S, sc, spec, case['program'])
-                    target = W.target_for(case, tmpdir, rng)
-                    state.update(case=case, target=target, spec=spec, file=None, buf=None, judged=False)
-                    before = ctx.n_violations
-                    try:
-                        W.run_program(S, case, spec, models, target)
-                    except Exception:  # noqa: BLE001  (judged by the monitor through PY_UNWIND)
-                        pass
-                    state['case'] = None
-                    f = state['file']
-                    if f is not None and not (f.header_error or f.bat_error):
+                for case0 in it['cases']:
+                    rng = np.random.Generator(np.random.PCG64(case0['vseed']))
+                    spec = W.gen_spec(rng, case0)
+                    models = W.build_models(S, sc, spec, case0['program'])
+                    W.describe_rows(case0, spec)
+                    for case in W.case_reps(case0):
+                        target = W.target_for(case, tmpdir, rng)
+                        state.update(case=case, target=target, spec=spec, file=None, buf=None, judged=False)
+                        before = ctx.n_violations
                         try:
-                            read_back(ctx, S, sc, case, spec, target, f, state['buf'], state.get('trace'))
-                        except Exception:  # noqa: BLE001
-                            ctx.oracle_error('C13 read_back')
-                    elif not state['judged']:
-                        ctx.count('create_not_observed')
-                    W.hit_forced(ctx, case)
-                    hit_values(ctx, case, spec)
-                    ctx.case((*W.signature(case), case['values']),
-                             trivial=(not case['program'] and case['byteorder'] == 'native'))
-                    if ctx.n_violations > before or (it['item'] % 97 == 0 and case is it['cases'][0]):
-                        ctx.sample(W.case_summary(case))
-                    if not isinstance(target, io.BytesIO):
-                        try:
-                            os.remove(target)
-                        except OSError:
-                            pass
+                            W.run_program(S, case, spec, models, target)
+                        except Exception as e:  # noqa: BLE001  (create: judged by the monitor, PY_UNWIND)
+                            if not state['judged']:
+                                # a valid builder program did not get as far as create()
+                                ctx.violation('builder_raised', f'{type(e).__name__}: {str(e)[:200]} (before create)',
+                                              W.case_summary(case), exception=type(e).__name__)
+                        state['case'] = None
+                        f = state['file']
+                        if f is not None and not (f.header_error or f.bat_error):
+                            try:
+                                read_back(ctx, S, sc, case, spec, target, f, state['buf'], state.get('trace'))
+                            except Exception:  # noqa: BLE001
+                                ctx.oracle_error('C13 read_back')
+                        elif not state['judged']:
+                            ctx.count('create_not_observed')
+                        W.hit_forced(ctx, case, spec)
+                        hit_values(ctx, case, spec)
+                        ctx.case((*W.signature(case, spec), case['values']),
+                                 trivial=(not case['program'] and case['byteorder'] == 'native'))
+                        if ctx.n_violations > before or (it['item'] % 97 == 0 and case0 is it['cases'][0]):
+                            ctx.sample(W.case_summary(case))
+                        if not isinstance(target, io.BytesIO):
+                            try:
+                                os.remove(target)
+                            except OSError:
+                                pass
+                        state.update(target=None, file=None, buf=None, trace=None)
+                        del target, f
+                    state['spec'] = None
+                    del spec, models
     finally:
         shutil.rmtree(tmpdir, ignore_errors=True)
 
@@ -995,6 +1036,13 @@ FINDING_PREDICATES = {
     'sqw.writer.string_length_in_characters': lambda v: v['kind'] in ('block_undecodable', 'reader_raised',
                                                                      'content_string')
     and _k(v).get('mechanism') == 'string_length_in_characters',
+    # writer: data_range of the pixel metadata keeps the dtype of the rows (all rows float32 / int32:
+    # 4-byte items under the f64 tag, block undecodable / unreadable; all rows int64: integer bit
+    # patterns under the f64 tag)
+    'sqw.writer.pix_data_range_dtype': lambda v: _k(v).get('block') in ('pix/metadata',) and (
+        (v['kind'] in ('block_undecodable', 'reader_raised') and _k(v).get('mechanism') == 'f64_tag_4_byte_items'
+         and _k(v).get('array') == 'data_range')
+        or (v['kind'] == 'pix_metadata' and _k(v).get('mechanism') == 'f64_tag_integer_items')),
     # reader: alatt (written in angstrom) labelled 1/angstrom in IX_sample and line_proj
     'sqw.reader.alatt_unit_dimension': lambda v: v['kind'] == 'reader_unit_dimension'
     and _k(v).get('field') == 'lattice_spacing' and _k(v).get('written_dim') == 'length'
